@@ -27,9 +27,15 @@ USERS = {
     "grantee": ("Gr#Pw12345xy", False, {}),
     "pwuser": ("Pw#Pw12345xy", False, {}),
     "dropme": ("Dr#Pw12345xy", False, {}),
+    "all1user": ("Al#Pw12345xy", False, {"db1": "ALL"}),
+    "rwacct": ("Rw#Pw12345xy", False, {}),
 }
+# accounts created WITH PARTITION PRIVILEGES (UserInfo.Rwuser): every per-database check passes, never an administrator
+RWUSERS = ("rwacct",)
 MARK = {"db1": "c19secretmarker1", "db2": "c19secretmarker2"}
 CLASS_USER = {"ro": "rouser", "wo": "wouser", "other": "otheruser", "admin": "root"}
+# classes used only by the statement matrix / selected groups (not multiplied over every route and transport)
+EXTRA_CLASS_USER = {"all1": "all1user", "rw": "rwacct"}
 INVALID = ("none", "malformed", "unknown", "wrongpw")
 
 
@@ -46,26 +52,77 @@ def jwt(claims, secret=SECRET, alg="HS256"):
     return h + "." + p + "." + b64url(sig)
 
 
-def free_ports(n, lo=21900, hi=21999):
-    start = lo + (os.getpid() * 7) % (hi - lo - n)
-    res = []
-    p = start
-    tried = 0
-    while len(res) < n and tried < (hi - lo + 1):
-        s = socket.socket()
+PORT_LO, PORT_HI, PORT_BLOCK = 21900, 21999, 10
+
+
+def _pid_alive(pid):
+    try:
+        os.kill(pid, 0)
+        return True
+    except ProcessLookupError:
+        return False
+    except OSError:
+        return True
+
+
+def _port_free(p):
+    """nothing listens on the port and it can be bound"""
+    c = socket.socket()
+    c.settimeout(0.3)
+    try:
+        if c.connect_ex(("127.0.0.1", p)) == 0:
+            return False
+    finally:
+        c.close()
+    s = socket.socket()
+    try:
+        s.bind(("127.0.0.1", p))
+        return True
+    except OSError:
+        return False
+    finally:
+        s.close()
+
+
+def claim_port_block(verif_root, n):
+    """Two runs of ./check C19 may overlap. Under an exclusive file lock pick a block of PORT_BLOCK consecutive ports
+    inside 21900-21999 that no live run has claimed and on which nothing listens; the claim (a file holding our pid)
+    lasts until release_port_block. Returns (ports, claim_path); raises when no block is usable (never starts a
+    server on a port somebody else listens on)."""
+    import fcntl
+    assert n <= PORT_BLOCK
+    d = os.path.join(verif_root, "build", "c19-ports")
+    os.makedirs(d, exist_ok=True)
+    with open(os.path.join(d, "lock"), "w") as lk:
+        fcntl.flock(lk, fcntl.LOCK_EX)
         try:
-            s.setsockopt(socket.SOL_SOCKET, socket.SO_REUSEADDR, 1)
-            s.bind(("127.0.0.1", p))
-            res.append(p)
-        except OSError:
-            pass
+            nblocks = (PORT_HI - PORT_LO + 1) // PORT_BLOCK
+            first = os.getpid() % nblocks
+            for k in range(nblocks):
+                base = PORT_LO + ((first + k) % nblocks) * PORT_BLOCK
+                claim = os.path.join(d, "block-%d" % base)
+                try:
+                    owner = int(open(claim).read().strip() or "0")
+                except (OSError, ValueError):
+                    owner = 0
+                if owner and _pid_alive(owner) and os.path.exists(claim):
+                    continue
+                ports = list(range(base, base + n))
+                if not all(_port_free(p) for p in ports):
+                    continue
+                with open(claim, "w") as f:
+                    f.write(str(os.getpid()))
+                return ports, claim
         finally:
-            s.close()
-        p = p + 1 if p < hi else lo
-        tried += 1
-    if len(res) < n:
-        raise RuntimeError("no free ports in %d-%d" % (lo, hi))
-    return res
+            fcntl.flock(lk, fcntl.LOCK_UN)
+    raise RuntimeError("no free block of %d ports in %d-%d (all claimed or something listens)" % (n, PORT_LO, PORT_HI))
+
+
+def release_port_block(claim):
+    try:
+        os.unlink(claim)
+    except OSError:
+        pass
 
 
 class Server:
@@ -75,7 +132,7 @@ class Server:
         os.makedirs(self.dir, exist_ok=True)
         src = open(os.path.join(ck.repo, "config", "openGemini.singlenode.conf")).read()
         old = ["8092", "8088", "8091", "8086", "8087", "8400", "8401", "8305"]
-        ports = free_ports(len(old))
+        ports, self.claim = claim_port_block(ck.verif, len(old))
         for a, b in zip(old, ports):
             src = src.replace("127.0.0.1:" + a, "127.0.0.1:%d" % b)
         self.port = ports[3]
@@ -112,6 +169,7 @@ class Server:
                     pass
                 self.proc.wait(timeout=10)
         self.log.close()
+        release_port_block(self.claim)
 
     def alive(self):
         return self.proc.poll() is None
@@ -188,7 +246,7 @@ def setup(srv, data=True):
     for name, (pw, admin, privs) in USERS.items():
         if name == "root":
             continue
-        st, b = srv.admin_q("CREATE USER %s WITH PASSWORD '%s'" % (name, pw))
+        st, b = srv.admin_q("CREATE USER %s WITH PASSWORD '%s'%s" % (name, pw, " WITH PARTITION PRIVILEGES" if name in RWUSERS else ""))
         if not result_ok(st, b):
             return "setup create user %s: %s %s" % (name, st, b[:200])
         for db, p in privs.items():
@@ -216,7 +274,7 @@ def setup(srv, data=True):
 
 
 SNAP_Q = ("SHOW DATABASES; SHOW USERS; SHOW GRANTS FOR grantee; SHOW GRANTS FOR rouser; SHOW GRANTS FOR wouser; "
-          "SHOW GRANTS FOR otheruser; SHOW GRANTS FOR pwuser; SHOW RETENTION POLICIES ON db1; SHOW RETENTION POLICIES ON db2; "
+          "SHOW GRANTS FOR otheruser; SHOW GRANTS FOR pwuser; SHOW GRANTS FOR all1user; SHOW GRANTS FOR rwacct; SHOW RETENTION POLICIES ON db1; SHOW RETENTION POLICIES ON db2; "
           "SHOW CONTINUOUS QUERIES")
 # (measurement listings come from the stores and lag behind writes: data-level effects are checked by landed_cases / seeds_present)
 
@@ -342,6 +400,16 @@ def cred_variants(tier):
     return V
 
 
+def extra_creds():
+    """basic-transport credentials of the extra classes (ALL on db1; partition privileges)"""
+    V = []
+    for cls, name in EXTRA_CLASS_USER.items():
+        pw = USERS[name][0]
+        V.append({"cls": cls, "transport": "basic", "label": "valid", "params": {}, "headers": basic_header(name, pw),
+                  "coq": 'mk_creds_in "" "" (HBasic (Some ("%s", "%s")))' % (name, pw)})
+    return V
+
+
 def coq_users(overrides=None):
     """Coq term for the user table (order = creation order). overrides: {name: {db: priv}}"""
     pm = {"READ": "ReadPriv", "WRITE": "WritePriv", "ALL": "AllPriv", "NONE": "NoPriv"}
@@ -350,18 +418,18 @@ def coq_users(overrides=None):
         pr = dict(privs)
         if overrides and name in overrides:
             pr = overrides[name]
-        items.append('mk_user "%s" "%s" %s [%s]' % (name, pw, "true" if admin else "false",
-                                                    "; ".join('("%s", %s)' % (d, pm[p]) for d, p in pr.items())))
+        items.append('mk_user "%s" "%s" %s %s [%s]' % (name, pw, "true" if admin else "false", "true" if name in RWUSERS else "false",
+                                                       "; ".join('("%s", %s)' % (d, pm[p]) for d, p in pr.items())))
     return "[" + ";\n  ".join(items) + "]"
 
 
 def can(cls, what, db, overrides=None):
     """ground truth of the fixture: may a user of this class read/write db (admin: everything)"""
-    if cls in INVALID or cls not in CLASS_USER:
+    if cls in INVALID or (cls not in CLASS_USER and cls not in EXTRA_CLASS_USER):
         return False
-    name = CLASS_USER[cls]
+    name = CLASS_USER.get(cls) or EXTRA_CLASS_USER[cls]
     pw, admin, privs = USERS[name]
-    if admin:
+    if admin or name in RWUSERS:
         return True
     p = privs.get(db)
     return p == "ALL" or p == what
